@@ -33,6 +33,7 @@ def run(rep):
     rep.guard(cache.cc2, rep, w, 'C12')
     import c05
     rep.guard(c05.e4, rep, w)     # a key must not change after it was inserted: tuples, ranges and strings are never written after construction (a copied-and-patched tuple carries its source's state, e.g. a remembered hash)
+    rep.guard(c05.e12, rep, w)    # ... and carry no state a reader changes (a remembered hash that a copy of the tuple inherits)
 
 
 def discr_switches(f, adt_path):
@@ -114,6 +115,49 @@ def h1(rep, w):
                 'such a key never equals itself' % v, ef.loc())
 
 
+def _key_validated(w, f, org, bi, keyp, depth=0):
+    """the key operand of the call in block bi was accepted by validate_hash_map_key / has_hash on the way - in this function, or, when it is a
+    parameter handed straight through (a method of the map object that wraps the operation), at every call site"""
+    key_paths = org.get(keyp['l'], set())
+    validated = any(q[0][0] == 'call' and q[0][2] == VALIDATE for q in key_paths)
+    if not validated:
+        # dominated by has_hash(&key) whose rejecting edge does not reach this call
+        dom = f.dominators()
+        key_roots = {q[0] for q in key_paths} | {('local', keyp['l'])}
+        for hb, ht in f.calls():
+            if callee_name(ht) != HAS_HASH or hb not in dom.get(bi, ()):
+                continue
+            hp = op_place(ht['args'][0])
+            hroots = {q[0] for q in org.get(hp['l'], ())} if hp else set()
+            if not (hroots & key_roots):
+                continue
+            # the switch on the result
+            b = ht.get('to')
+            for _ in range(4):
+                tt = f.blocks[b]['t']
+                if tt['t'] == 'switch':
+                    targets = [cb for v, cb in tt['cases']] + [tt['else']]
+                    if any(bi not in f.reachable_blocks(x) for x in targets):
+                        validated = True
+                    break
+                if tt['t'] == 'goto':
+                    b = tt['to']
+                else:
+                    break
+    if not validated and depth < 2:
+        args = {q[0][1] for q in key_paths if q[0][0] == 'arg' and not [x for x in q[1:] if x != '*' and not x.startswith('@')]}
+        if args and all(q[0][0] == 'arg' for q in key_paths) and len(args) == 1:
+            k = args.pop()
+            import c01
+            every = c01.callers_of(w, f.path)
+            sites = [(g, bj, t2) for (g, bj, t2) in every if not t2.get('inlined') and len(t2['args']) >= k]
+            if every and all(t2.get('inlined') for (_, _, t2) in every):
+                return True      # the only call sites were spliced into their callers: the copies are judged there, with the callers' keys
+            if sites:
+                validated = all(op_place(t2['args'][k - 1]) is not None and _key_validated(w, g, origins(g), bj, op_place(t2['args'][k - 1]), depth + 1) for (g, bj, t2) in sites)
+    return validated
+
+
 def h2(rep, w):
     c = w.yarel
     r = rep.rule('H2', 'every map operation on ObjHashMap.elements takes a key that passed has_hash / validate_hash_map_key', floor=5)
@@ -140,32 +184,7 @@ def h2(rep, w):
             if keyp is None:
                 r.bad(site, 'map operation with a constant key?')
                 continue
-            key_paths = org.get(keyp['l'], set())
-            validated = any(q[0][0] == 'call' and q[0][2] == VALIDATE for q in key_paths)
-            if not validated:
-                # dominated by has_hash(&key) whose rejecting edge does not reach this call
-                dom = f.dominators()
-                key_roots = {q[0] for q in key_paths} | {('local', keyp['l'])}
-                for hb, ht in f.calls():
-                    if callee_name(ht) != HAS_HASH or hb not in dom.get(bi, ()):
-                        continue
-                    hp = op_place(ht['args'][0])
-                    hroots = {q[0] for q in org.get(hp['l'], ())} if hp else set()
-                    if not (hroots & key_roots):
-                        continue
-                    # the switch on the result
-                    b = ht.get('to')
-                    for _ in range(4):
-                        tt = f.blocks[b]['t']
-                        if tt['t'] == 'switch':
-                            targets = [cb for v, cb in tt['cases']] + [tt['else']]
-                            if any(bi not in f.reachable_blocks(x) for x in targets):
-                                validated = True
-                            break
-                        if tt['t'] == 'goto':
-                            b = tt['to']
-                        else:
-                            break
+            validated = _key_validated(w, f, org, bi, keyp)
             r.check(validated, site, 'a key reaches HashMap::%s on a map object without passing has_hash/validate_hash_map_key: an unhashable '
                     'key panics inside Hash for Value' % name.rsplit('::', 1)[-1], f.loc(t.get('sp')))
     # validate_hash_map_key really rejects: calls has_hash and returns Err on the false edge
@@ -244,12 +263,19 @@ def h6(rep, w):
         f = w.require_fn(nm, 'C12')
         org = origins(f)
         puts = []
+        sites = [(f, org, bi, t) for bi, t in f.calls()]
+        # ... also where the store sits in a method of the map object that the function calls (insert that keeps a counter as well)
         for bi, t in f.calls():
+            g = w.fns.get(callee_name(t) or '')
+            if g is not None and g.impl_self is not None and g.crate.ty(g.impl_self).get('n') == 'yarel::object::ObjHashMap':
+                gorg = origins(g)
+                sites += [(g, gorg, bj, t2) for bj, t2 in g.calls()]
+        for (f_, org_, bi, t) in sites:
             n = strip_generics(callee_name(t) or '')
             if n.startswith('std::collections::HashMap::') or n.startswith('std::collections::hash_map::'):
                 m = n.rsplit('::', 1)[-1]
                 if m in ('insert', 'entry', 'or_insert', 'or_insert_with', 'try_insert', 'extend', 'or_default', 'raw_entry_mut') and t['args'] and \
-                        ('elements' in _of(f, org, t['args'][0]) or m.startswith('or_')):
+                        ('elements' in _of(f_, org_, t['args'][0]) or m.startswith('or_')):
                     puts.append(m)
         r.check(puts == ['insert'], '%s stores an entry with HashMap::insert' % nm.rsplit('::', 1)[-1],
                 '%s stores entries through %s: for two equal keys the earlier value can win, which is not what a sequence of insert() calls gives' % (nm, puts), f.loc())
